@@ -12,7 +12,7 @@ import (
 // Effect classes of external primitives (DESIGN §3 A3).
 const (
 	EffPure     = "pure"
-	EffFSRead   = "fs-read"   // open read-only, read, readdir
+	EffFSRead   = "fs-read" // open read-only, read, readdir
 	EffFSStat   = "fs-stat"
 	EffFSCreate = "fs-create" // creating open, CreateTemp
 	EffFSWrite  = "fs-write"  // content write through a writer
@@ -37,112 +37,112 @@ var MutatingFS = map[string]bool{EffFSCreate: true, EffFSWrite: true, EffFSRenam
 // from module code. A call from module code to a function of these packages that is missing
 // here is reported as UNDECIDED by the effect rules.
 var ExtEffects = map[string]string{
-	"os.Open":                     EffFSRead,
-	"os.OpenFile":                 "openfile", // classified by flag constants
-	"os.Stat":                     EffFSStat,
-	"os.Lstat":                    EffFSStat,
-	"os.Remove":                   EffFSDelete,
-	"os.RemoveAll":                EffFSDelete,
-	"os.Rename":                   EffFSRename,
-	"os.MkdirAll":                 EffFSMkdir,
-	"os.Mkdir":                    EffFSMkdir,
-	"os.CreateTemp":               EffFSCreate,
-	"os.Create":                   EffFSOpenRW,
-	"os.WriteFile":                EffFSOpenRW,
-	"os.Truncate":                 EffFSOpenRW,
-	"os.Chmod":                    EffFSOpenRW,
-	"os.Chown":                    EffFSOpenRW,
-	"os.Lchown":                   EffFSOpenRW,
-	"os.Chtimes":                  EffFSOpenRW,
-	"os.MkdirTemp":                EffFSMkdir,
-	"os.Readlink":                 EffFSStat,
-	"os.Getwd":                    EffPure,
-	"os.Getpid":                   EffPure,
-	"os.Hostname":                 EffPure,
-	"io.ReadAll":                  EffFSRead,
-	"io.ReadFull":                 EffFSRead,
-	"os.Link":                     EffFSCreate,
-	"os.Symlink":                  EffFSCreate,
-	"os.ReadFile":                 EffFSRead,
-	"os.ReadDir":                  EffFSRead,
-	"os.DirFS":                    EffPure,
-	"os.Environ":                  EffEnv,
-	"os.LookupEnv":                EffEnv,
-	"os.Getenv":                   EffEnv,
-	"os.IsNotExist":               EffPure,
-	"os.IsExist":                  EffPure,
-	"os.Exit":                     EffPure,
-	"(*os.File).Close":            EffClose,
-	"(*os.File).Stat":             EffFSStat,
-	"(*os.File).Name":             EffPure,
-	"(*os.File).Sync":             EffFSSync,
-	"(*os.File).Readdirnames":     EffFSRead,
-	"(*os.File).ReadDir":          EffFSRead,
-	"(*os.File).Readdir":          EffFSRead,
-	"(*os.File).Read":             EffFSRead,
-	"(*os.File).Write":            EffFSWrite,
-	"(*os.File).WriteString":      EffFSWrite,
-	"(*os.File).WriteAt":          EffFSWrite,
-	"(*os.File).Truncate":         EffFSWrite,
-	"(*os.File).Seek":             EffPure,
-	"(*os.File).Chmod":            EffFSWrite,
-	"(*os.File).ReadFrom":         EffFSWrite,
-	"(*os.File).Fd":               EffPure,
-	"(*os.Process).Kill":          EffPure,
-	"(os.FileMode).IsRegular":     EffPure,
-	"(os.FileMode).IsDir":         EffPure,
-	"(io/fs.FileMode).IsRegular":  EffPure,
-	"(io/fs.FileMode).IsDir":      EffPure,
-	"io.WriteString":              "writer", // classified by the writer
-	"io.Copy":                     "writer",
-	"fmt.Fprintf":                 "writer",
-	"fmt.Fprint":                  "writer",
-	"fmt.Fprintln":                "writer",
-	"(*bufio.Reader).WriteTo":     "writer",
-	"(*bufio.Reader).ReadString":  EffFSRead,
-	"bufio.NewReader":             EffPure,
-	"bufio.NewReaderSize":         EffPure,
-	"(*bufio.Reader).ReadLine":    EffFSRead,
-	"(*bufio.Reader).ReadBytes":   EffFSRead,
-	"(*bufio.Reader).ReadSlice":   EffFSRead,
-	"(*bufio.Reader).Read":        EffFSRead,
-	"(*bufio.Reader).ReadByte":    EffFSRead,
-	"(*bufio.Reader).ReadRune":    EffFSRead,
-	"(*bufio.Reader).Peek":        EffFSRead,
-	"(*bufio.Reader).Discard":     EffFSRead,
-	"(*bufio.Reader).Buffered":    EffPure,
-	"(*bufio.Reader).Reset":       EffPure,
-	"(*bufio.Scanner).Text":       EffPure,
-	"(*bufio.Scanner).Buffer":     EffPure,
-	"bufio.ScanLines":             EffPure,
-	"io.LimitReader":              EffPure,
-	"io.NopCloser":                EffPure,
-	"io.MultiReader":              EffPure,
-	"os.Getuid":                   EffPure,
-	"os.Geteuid":                  EffPure,
-	"os.IsPermission":             EffPure,
-	"os.IsTimeout":                EffPure,
-	"(*os.File).ReadAt":           EffFSRead,
-	"(*os.File).Readdirnames ":    EffFSRead,
-	"bufio.NewScanner":            EffPure,
-	"(*bufio.Scanner).Split":      EffPure,
-	"(*bufio.Scanner).Scan":       EffFSRead,
-	"(*bufio.Scanner).Bytes":      EffPure,
-	"(*bufio.Scanner).Err":        EffPure,
-	"path/filepath.Join":          EffPure,
-	"path/filepath.Dir":           EffPure,
-	"path/filepath.Clean":         EffPure,
-	"path/filepath.Ext":           EffPure,
-	"path/filepath.Base":          EffPure,
-	"path.Clean":                  EffPure,
-	"os/exec.Command":             EffPure,
-	"(*os/exec.Cmd).Start":        EffExec,
-	"(*os/exec.Cmd).Run":          EffExecWait,
-	"(*os/exec.Cmd).Output":       EffExecWait,
+	"os.Open":                       EffFSRead,
+	"os.OpenFile":                   "openfile", // classified by flag constants
+	"os.Stat":                       EffFSStat,
+	"os.Lstat":                      EffFSStat,
+	"os.Remove":                     EffFSDelete,
+	"os.RemoveAll":                  EffFSDelete,
+	"os.Rename":                     EffFSRename,
+	"os.MkdirAll":                   EffFSMkdir,
+	"os.Mkdir":                      EffFSMkdir,
+	"os.CreateTemp":                 EffFSCreate,
+	"os.Create":                     EffFSOpenRW,
+	"os.WriteFile":                  EffFSOpenRW,
+	"os.Truncate":                   EffFSOpenRW,
+	"os.Chmod":                      EffFSOpenRW,
+	"os.Chown":                      EffFSOpenRW,
+	"os.Lchown":                     EffFSOpenRW,
+	"os.Chtimes":                    EffFSOpenRW,
+	"os.MkdirTemp":                  EffFSMkdir,
+	"os.Readlink":                   EffFSStat,
+	"os.Getwd":                      EffPure,
+	"os.Getpid":                     EffPure,
+	"os.Hostname":                   EffPure,
+	"io.ReadAll":                    EffFSRead,
+	"io.ReadFull":                   EffFSRead,
+	"os.Link":                       EffFSCreate,
+	"os.Symlink":                    EffFSCreate,
+	"os.ReadFile":                   EffFSRead,
+	"os.ReadDir":                    EffFSRead,
+	"os.DirFS":                      EffPure,
+	"os.Environ":                    EffEnv,
+	"os.LookupEnv":                  EffEnv,
+	"os.Getenv":                     EffEnv,
+	"os.IsNotExist":                 EffPure,
+	"os.IsExist":                    EffPure,
+	"os.Exit":                       EffPure,
+	"(*os.File).Close":              EffClose,
+	"(*os.File).Stat":               EffFSStat,
+	"(*os.File).Name":               EffPure,
+	"(*os.File).Sync":               EffFSSync,
+	"(*os.File).Readdirnames":       EffFSRead,
+	"(*os.File).ReadDir":            EffFSRead,
+	"(*os.File).Readdir":            EffFSRead,
+	"(*os.File).Read":               EffFSRead,
+	"(*os.File).Write":              EffFSWrite,
+	"(*os.File).WriteString":        EffFSWrite,
+	"(*os.File).WriteAt":            EffFSWrite,
+	"(*os.File).Truncate":           EffFSWrite,
+	"(*os.File).Seek":               EffPure,
+	"(*os.File).Chmod":              EffFSWrite,
+	"(*os.File).ReadFrom":           EffFSWrite,
+	"(*os.File).Fd":                 EffPure,
+	"(*os.Process).Kill":            EffPure,
+	"(os.FileMode).IsRegular":       EffPure,
+	"(os.FileMode).IsDir":           EffPure,
+	"(io/fs.FileMode).IsRegular":    EffPure,
+	"(io/fs.FileMode).IsDir":        EffPure,
+	"io.WriteString":                "writer", // classified by the writer
+	"io.Copy":                       "writer",
+	"fmt.Fprintf":                   "writer",
+	"fmt.Fprint":                    "writer",
+	"fmt.Fprintln":                  "writer",
+	"(*bufio.Reader).WriteTo":       "writer",
+	"(*bufio.Reader).ReadString":    EffFSRead,
+	"bufio.NewReader":               EffPure,
+	"bufio.NewReaderSize":           EffPure,
+	"(*bufio.Reader).ReadLine":      EffFSRead,
+	"(*bufio.Reader).ReadBytes":     EffFSRead,
+	"(*bufio.Reader).ReadSlice":     EffFSRead,
+	"(*bufio.Reader).Read":          EffFSRead,
+	"(*bufio.Reader).ReadByte":      EffFSRead,
+	"(*bufio.Reader).ReadRune":      EffFSRead,
+	"(*bufio.Reader).Peek":          EffFSRead,
+	"(*bufio.Reader).Discard":       EffFSRead,
+	"(*bufio.Reader).Buffered":      EffPure,
+	"(*bufio.Reader).Reset":         EffPure,
+	"(*bufio.Scanner).Text":         EffPure,
+	"(*bufio.Scanner).Buffer":       EffPure,
+	"bufio.ScanLines":               EffPure,
+	"io.LimitReader":                EffPure,
+	"io.NopCloser":                  EffPure,
+	"io.MultiReader":                EffPure,
+	"os.Getuid":                     EffPure,
+	"os.Geteuid":                    EffPure,
+	"os.IsPermission":               EffPure,
+	"os.IsTimeout":                  EffPure,
+	"(*os.File).ReadAt":             EffFSRead,
+	"(*os.File).Readdirnames ":      EffFSRead,
+	"bufio.NewScanner":              EffPure,
+	"(*bufio.Scanner).Split":        EffPure,
+	"(*bufio.Scanner).Scan":         EffFSRead,
+	"(*bufio.Scanner).Bytes":        EffPure,
+	"(*bufio.Scanner).Err":          EffPure,
+	"path/filepath.Join":            EffPure,
+	"path/filepath.Dir":             EffPure,
+	"path/filepath.Clean":           EffPure,
+	"path/filepath.Ext":             EffPure,
+	"path/filepath.Base":            EffPure,
+	"path.Clean":                    EffPure,
+	"os/exec.Command":               EffPure,
+	"(*os/exec.Cmd).Start":          EffExec,
+	"(*os/exec.Cmd).Run":            EffExecWait,
+	"(*os/exec.Cmd).Output":         EffExecWait,
 	"(*os/exec.Cmd).CombinedOutput": EffExecWait,
-	"(*os/exec.Cmd).Wait":         EffExecWait,
-	"os/signal.Notify":            EffSignal,
-	"(*os.ProcessState).String":   EffPure,
+	"(*os/exec.Cmd).Wait":           EffExecWait,
+	"os/signal.Notify":              EffSignal,
+	"(*os.ProcessState).String":     EffPure,
 }
 
 // effect packages whose every called function must be classified
